@@ -264,6 +264,10 @@ def run_vh(cases, flags="tree,valid,rx,dfa", timeout=120):
     return results
 
 
+# `prlimit` keeps subprocess on its fast path (a preexec_fn forces a full fork of this process per run)
+CPU_LIMIT = ["prlimit", "--cpu=20", "--"] if shutil.which("prlimit") else []
+
+
 def _cpu_limit():
     import resource
     resource.setrlimit(resource.RLIMIT_CPU, (20, 21))
@@ -272,11 +276,11 @@ def _cpu_limit():
 def run_complgen(shell, text, extra=None, out="-", timeout=600, env=None, cwd=None, path_arg="-"):
     """Run the real binary. Returns (rc, stdout bytes, stderr str). The time limit is 20 s of CPU time (a loaded
     machine must not fake a hang); the wall-clock limit only guards against a sleeping process."""
-    cmd = [COMPLGEN, f"--{shell}", out] + (extra or []) + [path_arg]
+    cmd = CPU_LIMIT + [COMPLGEN, f"--{shell}", out] + (extra or []) + [path_arg]
     data = text if isinstance(text, bytes) else text.encode("utf-8")
     try:
         r = subprocess.run(cmd, input=data if path_arg == "-" else None, capture_output=True, timeout=timeout,
-                           env=env or ENV, cwd=cwd, preexec_fn=_cpu_limit)
+                           env=env or ENV, cwd=cwd, preexec_fn=None if CPU_LIMIT else _cpu_limit)
         if r.returncode in (-24, -9):
             return "timeout", b"", ""
         return r.returncode, r.stdout, r.stderr.decode("utf-8", "replace")
